@@ -68,6 +68,26 @@ CHECKS = {
          "Histories of up to 39 adds from empty / constructor / parser-produced starts; the model is compared after every step; traversal order and termination for generated values.",
          "Four group kinds.", "DESIGN.md 3/C19"),
 }
+# sentences appended to the level text: what later rounds added (DESIGN.md 9.5-9.9)
+ADDED = {
+ "C01": " Also edit histories: add(), public-map inserts/removals, header changes and clone-and-diverge on one or two objects with encodings interleaved, each encoding parsed back and compared with the model of that object at that moment.",
+ "C02": " The mutant search and long single values are repeated with a `log` logger enabled at trace level (rendering every record), as is the libFuzzer target.",
+ "C03": " Also edit histories (see C01) judged by the reference decoder after every interleaved encoding.",
+ "C06": " Also pipelined streams: several messages through ONE reader (parse_parts -> handed-back reader -> next parser), incl. a 17/69 MiB stream.",
+ "C07": " Also cuts and faults inside a later message of a pipelined stream read through one reader, incl. after 17/69 MiB went through it.",
+ "C09": " Also encodings in the middle of the additions, edit histories (additions, map inserts, clones), and messages that reached the encoder through serde Deserialize (explored by chk-serde, absorbed by this check).",
+ "C10": " Also program sequences on one thread over target histories (related targets: letter-case relatives, partner scheme, user = host, port/query toggled).",
+ "C11": " Also recovery: a failed exchange followed on the same thread by a good one that is judged completely.",
+ "C12": " The matrix includes builder call histories (true-then-false, and ca_cert() before/between/after the flag calls): 992 cells.",
+ "C13": " Also target histories (4-12 related targets in a row on one thread); the host must be spelled as given or in lower case.",
+ "C14": " Also target histories (see C13).",
+ "C15": " Also the log text rendered per parse with a trace-level logger installed, as a deterministic work measure.",
+ "C16": " Also every value-tag byte repeated in a run after values of known syntaxes.",
+ "C17": " Also a response built with the opposite state/reasons and then updated with add().",
+ "C18": " Also --option arguments without '=' among the options, and a printer that resets the connection in the middle of the upload.",
+ "C19": " Also iterator programs: generated sequences of next/nth/skip/take/step_by compared step by step with a slice iterator.",
+ "C20": " Every document is also read through from_value, to_value+from_value, from_slice and from_reader.",
+}
 NOT_YET = {
 }
 extra = json.load(open(os.path.join(ROOT, "tools", "manifest_extra.json"))) if os.path.exists(os.path.join(ROOT, "tools", "manifest_extra.json")) else {}
@@ -89,7 +109,7 @@ m = {
  },
  "engines": [
   {"name": "chk", "path": "harness/chk", "serves_properties": [i for i in ids if i in CHECKS and i not in ("C20",)], "kind_free_text": "Rust binary: proptest-driven generators + explicit oracles (reference RFC 8010 codec, models, scripted I/O, loopback servers), seeded by VERIF_SEED, sharded over 16 threads"},
-  {"name": "chk-serde", "path": "harness/chk-serde", "serves_properties": ["C20"], "kind_free_text": "same core, ipp built with feature serde"},
+  {"name": "chk-serde", "path": "harness/chk-serde", "serves_properties": ["C20", "C09"], "kind_free_text": "same core, ipp built with feature serde; for C09 it runs as a child of chk (serde-loaded messages)"},
   {"name": "chk-rustls", "path": "harness/chk-rustls", "serves_properties": ["C12"], "kind_free_text": "rustls half of the TLS matrix (ipp built with the rustls client features)"},
   {"name": "fuzz", "path": "fuzz", "serves_properties": ["C01", "C02", "C04", "C05"], "kind_free_text": "cargo-fuzz / libFuzzer targets with the semantic oracle inside the target (thorough tier)"},
  ],
@@ -100,6 +120,7 @@ m = {
 for i in ids:
     if i in CHECKS:
         cat, tech, text, note, ref = CHECKS[i]
+        text = text + ADDED.get(i, "")
         m["checks"].append({
             "property_id": i,
             "quick_cmd": f"./check {i} quick",
